@@ -1,8 +1,73 @@
 import Lean.Data.Json
-/- stub: the C09 driver is not built yet -/
-namespace Glom.C09.Driver
-open Lean
+import Glom.Driver.C10
+import Glom.Spec.C09
+/-
+  C09 driver: one JSON case in, one JSON verdict out (codecs: Glom/Driver/C10.lean).
 
-def run (_j : Json) : Except String Json := .error "property C09: driver not implemented yet"
+  case:  {"spec":Spec, "default":Arg|null, "target":V,
+          "spec_built":Spec|null, "target_built":V|null,     -- set / frozenset members in the
+                                                              -- iteration order CPython gave them
+          "impl":Obs, "impl_verify":Obs, "impl_matches":bool|null, "impl_after":V}
+-/
+namespace Glom.C09.Driver
+open Lean Glom Glom.MV Glom.C10 Glom.C10.Driver Glom.C09
+
+def facts9 : Facts9 :=
+  { matchOrder := Generated.glomMatchOrder
+    dispatchOrder := Generated.glomDispatchOrder
+    precedenceRules := Generated.precedenceRules
+    required := Generated.handleDictRequired
+    defaults := Generated.handleDictDefaults
+    mutations := Generated.matchMutations
+    fresh := Generated.matchFresh }
+
+def obs9Agree (a b : Obs9) : Bool :=
+  obsAgree a.main b.main && obsAgree a.verify b.verify && a.matched == b.matched &&
+  V.beq a.targetAfter b.targetAfter
+
+def obs9ToJson (o : Obs9) : Json :=
+  Json.mkObj [("main", obsToJson o.main), ("verify", obsToJson o.verify),
+    ("matches", match o.matched with | some b => Json.bool b | none => Json.null),
+    ("after", vToJson o.targetAfter)]
+
+def run (j : Json) : Except String Json := do
+  let specJ ← (match j.getObjVal? "spec_built" with
+    | .ok .null => j.getObjVal? "spec"
+    | .ok s => pure s
+    | .error _ => j.getObjVal? "spec")
+  let targetJ ← (match j.getObjVal? "target_built" with
+    | .ok .null => j.getObjVal? "target"
+    | .ok s => pure s
+    | .error _ => j.getObjVal? "target")
+  let p ← specOfJson specJ
+  let t ← vOfJson targetJ
+  let d ← optField j "default" argOfJson
+  let main ← obsOfJson (← j.getObjVal? "impl")
+  let ct := genEnv.cls
+  match ctorErr p with
+  | some e =>
+    let m := Obs.ctor e.cls
+    return Json.mkObj [("agree", m == main), ("holds", main == m), ("model", obsToJson m),
+      ("branch", s!"{specHead p}:ctor-{e.cls}"), ("wf", WF genEnv && WF9 genEnv facts9)]
+  | none =>
+    let ver ← obsOfJson (← j.getObjVal? "impl_verify")
+    let mt : Option Bool := match j.getObjVal? "impl_matches" with
+      | .ok (.bool b) => some b
+      | _ => none
+    let after ← vOfJson (← j.getObjVal? "impl_after")
+    let implObs : Obs9 := { main := main, verify := ver, matched := mt, targetAfter := after }
+    let modelObs := observe9 genEnv p d t
+    let den := denote ct (.matchS p d) t
+    let two := conforms ct p t || dfltOK d t
+    let holds := checkC09 ct p d t implObs
+    let agree := obs9Agree modelObs implObs
+    -- the implementation behaves as modelled (callable dict keys are required, `_precedence` = 0),
+    -- which the documented rule does not allow
+    let known := if !holds && agree && !keysOK p then "callable_key_required" else ""
+    return Json.mkObj [("agree", agree), ("holds", holds), ("known", known),
+      ("model", obs9ToJson modelObs), ("model_holds", checkC09 ct p d t modelObs),
+      ("branch", s!"{specHead p}:{verdictTag den.1}"), ("conforms", two),
+      ("keys_ok", keysOK p),
+      ("wf", WF genEnv && WF9 genEnv facts9)]
 
 end Glom.C09.Driver
